@@ -144,30 +144,34 @@ Record xout := { xo_method : str; xo_target : str; xo_hdr : hmap; xo_framing : N
 
 Definition excluded_on_write : list str := [k_host; k_ua; k_cl; k_te; k_trailer].
 
+(* the field lines net/http writes for the forwarded request r *)
+Definition transport_hdr (x : xin) (r : mreq) : hmap :=
+  let h := q_hdr r in
+  let h1 := filter (fun kv => negb (mem (fst kv) excluded_on_write)) h in
+  let h2 := raw_set k_host [q_host r] h1 in
+  let h3 := match raw_get k_ua h with
+            | Some (v :: _) => if is_empty v then h2 else raw_set k_ua [v] h2
+            | Some [] => h2
+            | None => raw_set k_ua [b "Go-http-client/1.1"] h2
+            end in
+  (* transferWriter.shouldSendContentLength with an empty body: "Content-Length: 0" for POST, PUT, PATCH only *)
+  let nobody_cl := mem (xi_method x) [b "POST"; b "PUT"; b "PATCH"] in
+  let h4 := if xi_framing x =? 2 then raw_set k_te [b "chunked"] h3
+            else if (xi_framing x =? 1) && negb (xi_blen x =? 0) then raw_set k_cl [itoa (xi_blen x)] h3
+            else if nobody_cl then raw_set k_cl [[48]] h3 else h3 in
+  let gzip := is_empty (h_get k_ae h) && is_empty (h_get k_range h) && negb (str_eqb (xi_method x) (b "HEAD")) in
+  let h5 := if gzip then raw_set k_ae (raw_values k_ae h4 ++ [b "gzip"]) h4 else h4 in
+  if q_close r && negb (has_token (raw_values k_connection h5) (b "close"))
+  then raw_set k_connection (b "close" :: raw_values k_connection h5) h5   (* written by the transfer writer, before the field lines *)
+  else h5.
+
 Definition transport_out (x : xin) (t : target) (r : mreq) : option xout :=
   match escaped_path (t_path t) with
   | None => None
   | Some ep =>
       let ruri := (if is_empty ep then [47] else ep) ++ query_suffix t in
       let tgt := if xi_mode x =? 1 then q_scheme r ++ b "://" ++ q_host r ++ ruri else ruri in
-      let h := q_hdr r in
-      let h1 := filter (fun kv => negb (mem (fst kv) excluded_on_write)) h in
-      let h2 := raw_set k_host [q_host r] h1 in
-      let h3 := match raw_get k_ua h with
-                | Some (v :: _) => if is_empty v then h2 else raw_set k_ua [v] h2
-                | Some [] => h2
-                | None => raw_set k_ua [b "Go-http-client/1.1"] h2
-                end in
-      (* transferWriter.shouldSendContentLength with an empty body: "Content-Length: 0" for POST, PUT, PATCH only *)
-      let nobody_cl := mem (xi_method x) [b "POST"; b "PUT"; b "PATCH"] in
-      let h4 := if xi_framing x =? 2 then raw_set k_te [b "chunked"] h3
-                else if (xi_framing x =? 1) && negb (xi_blen x =? 0) then raw_set k_cl [itoa (xi_blen x)] h3
-                else if nobody_cl then raw_set k_cl [[48]] h3 else h3 in
-      let gzip := is_empty (h_get k_ae h) && is_empty (h_get k_range h) && negb (str_eqb (xi_method x) (b "HEAD")) in
-      let h5 := if gzip then raw_set k_ae (raw_values k_ae h4 ++ [b "gzip"]) h4 else h4 in
-      let h6 := if q_close r && negb (has_token (raw_values k_connection h5) (b "close"))
-                then raw_set k_connection (b "close" :: raw_values k_connection h5) h5 else h5 in   (* written by the transfer writer, before the field lines *)
-      Some {| xo_method := xi_method x; xo_target := tgt; xo_hdr := h6;
+      Some {| xo_method := xi_method x; xo_target := tgt; xo_hdr := transport_hdr x r;
               xo_framing := if xi_framing x =? 2 then 2 else if (xi_framing x =? 1) && negb (xi_blen x =? 0) then 1 else 0 |}
   end.
 
